@@ -52,13 +52,58 @@ def damage_family(nlines):
     return fam
 
 
-def apply_damage(lines, d):
-    kind, k = d
+def apply_damage(lines, d, I=None):
+    kind, k = d[0], d[1]
+    if kind == "token":
+        toks = tokens_of(I, lines[k])
+        toks[d[2]] = d[3]
+        return lines[:k] + [rebuild(toks)] + lines[k + 1:]
     if kind == "truncate":
         return lines[:k]
     if kind == "delete":
         return lines[:k] + lines[k + 1:]
     return lines[:k + 1] + [lines[k]] + lines[k + 1:]
+
+
+CORRUPT = ("Xq", "7", "-1.5e")
+
+
+def is_number_token(t):
+    if isinstance(t, T.SStr):
+        return len(t.parts) == 1 and isinstance(t.parts[0], T.Tok) and t.parts[0].kind in ("int", "float")
+    if isinstance(t, str):
+        try:
+            float(t)
+            return True
+        except ValueError:
+            return False
+    return False
+
+
+def tokens_of(I, line):
+    return list(T.split(I, line if isinstance(line, T.SStr) else T.SStr([line])).items)
+
+
+def rebuild(toks):
+    parts = []
+    for j, t in enumerate(toks):
+        if j:
+            parts.append(" ")
+        parts.append(T.SStr([T.Tok("str", t)]) if isinstance(t, SV) else t)
+    parts.append("\n")
+    return T.SStr(parts)
+
+
+def token_family(I, lines, upto):
+    fam = []
+    for k, ln in enumerate(lines[:upto]):
+        for j, t in enumerate(tokens_of(I, ln)):
+            for new in CORRUPT:
+                # a number replaced by another well-formed number is a different, valid file: no reader can reject it
+                if new == "7" and is_number_token(t):
+                    continue
+                fam.append(("token", k, j, new))
+    return fam
 
 
 def summarize(I, mols):
@@ -69,7 +114,7 @@ def summarize(I, mols):
     return out
 
 
-def unit(fmt):
+def unit(fmt, tokens=False):
     def body(V):
         I, st = V.I, V.st
         T.use(st)
@@ -81,13 +126,16 @@ def unit(fmt):
         lines = T.lines(w.value)
         cls = V.cls(MOLQ)
         loader = I.getattr_(cls, f"loads_all_{fmt}")
-        fam = damage_family(len(lines))
+        # token corruption: every whitespace-separated token of every line of the first molecule replaced by a foreign symbol,
+        # a bare integer, and a malformed number
+        fam = token_family(I, lines, len(lines) // 2) if tokens else damage_family(len(lines))
         d = V.choose(fam, "damage")
-        V.witness(lambda ev: {"op": "damage", "format": fmt, "kind": d[0], "line": d[1], "nlines": len(lines), "signature": f"damage/{fmt}"})
+        V.witness(lambda ev: {"op": "damage", "format": fmt, "kind": d[0], "line": d[1], "nlines": len(lines), "token": d[2] if tokens else None,
+                              "new": d[3] if tokens else None, "signature": f"damage/{fmt}"})
         V.cover()
         ref = summarize(I, I.call(loader, [w.value], {}).items)
         declared = [(2, 1 if fmt == "mol2" else 0)] * 2
-        text = T.SStr(apply_damage(lines, d))
+        text = T.SStr(apply_damage(lines, d, I))
         I.target = f"molli.parsing.{fmt}:read_{fmt}"
         try:
             r = I.call(loader, [text], {})
@@ -115,3 +163,7 @@ P.unit("molli.parsing.mol2:read_mol2", name="mol2: every line-level damage is re
        functions=["molli.parsing.mol2:read_mol2", f"{M.CLS['Structure']}.yield_from_mol2", f"{M.CLS['Structure']}.loads_all_mol2"])(unit("mol2"))
 P.unit("molli.parsing.xyz:read_xyz", name="xyz: every line-level damage is rejected or yields complete molecules",
        functions=["molli.parsing.xyz:read_xyz", f"{M.CLS['CartesianGeometry']}.yield_from_xyz", f"{M.CLS['CartesianGeometry']}.loads_all_xyz"])(unit("xyz"))
+P.unit("molli.parsing.xyz:read_xyz", name="xyz: every single-token corruption is rejected or yields complete molecules with the same content",
+       functions=["molli.parsing.xyz:read_xyz", f"{M.CLS['CartesianGeometry']}.yield_from_xyz"])(unit("xyz", tokens=True))
+P.unit("molli.parsing.mol2:read_mol2", name="mol2: every single-token corruption is rejected or yields complete molecules with the same content",
+       functions=["molli.parsing.mol2:read_mol2", f"{M.CLS['Structure']}.yield_from_mol2"])(unit("mol2", tokens=True))
